@@ -19,7 +19,7 @@ import ast
 
 from sa.astutil import dump, where, kwargs_of, walk_no_nested, field_of, is_const
 from sa.model import AnalysisError, body_nodoc
-from sa.vn import VN, Poly, INF, normalise_function, parse_expr, VNUnknown
+from sa.vn import VN, Poly, INF, normalise_function, parse_expr, VNUnknown, comparable
 
 GMAPS = (("pybrops.popgen.gmap.StandardGeneticMap", "StandardGeneticMap"), ("pybrops.popgen.gmap.ExtendedGeneticMap", "ExtendedGeneticMap"))
 MAPFNS = {
@@ -46,11 +46,15 @@ def check_mapfns(prog, rep):
             continue
         if m == mr:
             rep.ok("R1-formulas", fm.qualname, "mapfn == %s" % mref, sample={"function": fm.qualname, "normal_form": m.show()})
+        elif not comparable(m, mr):
+            rep.unrec("R1-formulas", fm.qualname, "mapfn is written with operators the reference formula does not use: %s" % m.show()[:100])
         else:
             rep.violate("R1-formulas", fm.qualname, "mapfn normalises to %s; the %s map function is %s" % (m.show(), cname[:-11], mr.show()),
                         where(fm), mr.show(), m.show())
         if i == ir:
             rep.ok("R1-formulas", fi.qualname, "invmapfn == %s" % iref)
+        elif not comparable(i, ir):
+            rep.unrec("R1-formulas", fi.qualname, "invmapfn is written with operators the reference formula does not use: %s" % i.show()[:100])
         else:
             rep.violate("R1-formulas", fi.qualname, "invmapfn normalises to %s; the inverse %s map function is %s" % (i.show(), cname[:-11], ir.show()),
                         where(fi), ir.show(), i.show())
